@@ -47,6 +47,7 @@ M = {
     "M31_fifth_group_mask": ("src/internals.c", "(uch & 0x70)", "(uch & 0x40)", ["C16"], [], False),
     "M32_skip_negative_ok": ("src/object.c", "\t\t\t\tif (skip < 0)\n\t\t\t\t{\n\t\t\t\t\treturn SBDF_ERROR_INVALID_SIZE;\n\t\t\t\t}\n", "\t\t\t\tif (skip < -4)\n\t\t\t\t{\n\t\t\t\t\treturn SBDF_ERROR_INVALID_SIZE;\n\t\t\t\t}\n", ["C09", "C07"], [], False),
     "M33_ts_write_fewer": ("src/tableslice.c", "slice->no_columns != slice->table_metadata->no_columns", "slice->no_columns > slice->table_metadata->no_columns", ["C01"], ["C11"], False),
+    "M34_int8_not_sticky": ("src/internals.c", "if (fwrite(&c, sizeof(char), 1, f) != 1 || ferror(f))", "if (fwrite(&c, sizeof(char), 1, f) != 1)", ["C13"], ["C01"], False),
     # harmless rewrites: no check may report
     "H01_growth_x2": ("src/internals.c", "cap = 1 + cap * 3 / 2;", "cap = 1 + cap * 2;", [], ["C11", "C14", "C01", "C05"], True),
     "H02_obj401_io": ("src/object.c", "if (fwrite(*data, 1, length, f) != length)\n\t\t\t\t\t\t{\n\t\t\t\t\t\t\treturn SBDF_ERROR_OUT_OF_MEMORY;", "if (fwrite(*data, 1, length, f) != length)\n\t\t\t\t\t\t{\n\t\t\t\t\t\t\treturn SBDF_ERROR_IO;", [], ["C13", "C01", "C03"], True),
